@@ -38,7 +38,11 @@ def unbroadcast(array):
     if array.ndim == 0 or not hasattr(array, 'strides'):
         return array
 
-    new_shape = np.where(np.array(array.strides) == 0, 1, array.shape)
+    # Dimensions with no elements are left as they are: arrays without any
+    # elements can report zero strides for all dimensions, and the result
+    # would otherwise be a non-empty view of memory the array doesn't own.
+    new_shape = np.where((np.array(array.strides) == 0) & (np.array(array.shape) > 0),
+                         1, array.shape)
     return as_strided(array, shape=new_shape)
 
 
